@@ -1418,8 +1418,10 @@ int QSexact_verify (
          x_mpq = mpq_EGlpNumAllocArray(p_mpq->qslp->ncols);
          y_mpq = mpq_EGlpNumAllocArray(p_mpq->qslp->nrows);
 
-         /* get continued fraction approximation of approximate solution */
-         for( i = 0; i < p_mpq->qslp->ncols; ++i )
+         /* get continued fraction approximation of approximate solution: the
+          * caller's vector has one entry per structural variable, the slack part
+          * is computed by the test */
+         for( i = 0; i < p_mpq->qslp->nstruct; ++i )
             mpq_EGlpNumSet(x_mpq[i], dbl_p_sol[i]);
 
          for( i = 0; i < p_mpq->qslp->nrows; ++i )
